@@ -86,6 +86,10 @@ TARGETS = [
     ('MediaQuery', ['mediaText', 'mediaType']),
 ]
 
+# member names that have an extracted script in some class: a call of such a member on a child object is emitted as
+# `call f` (the ownership-tree theorems then cover it); other child helpers stay `mayRaise; mutate f` (contract assumed)
+TARGET_MEMBERS = {m for _c, ms in TARGETS for m in ms}
+
 # helper methods of Base/Base2/_NewBase that only read `self` (checked by reading util.py:140-420)
 PURE_SELF = {
     '_tokenize2', '_nexttoken', '_type', '_tokenvalue', '_stringtokenvalue', '_uritokenvalue', '_tokensupto2',
@@ -109,6 +113,8 @@ CHILD_MUTATORS = {'insertRule', 'deleteRule', 'add', 'setProperty', 'removePrope
                   'removeVariable', 'appendMedium', 'deleteMedium', 'appendSelector', '_replaceNamespaceURI',
                   '_setSeq', '_clearSeq', '_setCssTextWithEncodingOverride', '_setFetcher', '_updateVariables',
                   '_cleanNamespaces'}
+# dependency name -> member name of the extracted scripts that cover it (identity if absent)
+DEP_MEMBER = {}
 PURE_FUNCS = {'isinstance', 'len', 'list', 'tuple', 'dict', 'set', 'reversed', 'enumerate', 'str', 'bool', 'int',
               'float', 'iter', 'range', 'hasattr', 'getattr', 'filter', 'map', 'zip', 'sorted', 'any', 'all', 'min',
               'max', 'normalize', 'chain', 'round', 'unique_everseen', 'pushtoken', 'repr', 'type', 'id',
@@ -1632,7 +1638,9 @@ class Translator:
             if last[1] in PLAIN_CHILD_ATTRS:
                 return ('mutate', f)
             self.deps.add(last[1])
-            return seq([('mayRaise',), ('mutate', f)])
+            # a public setter of a child object of unknown class: `call f` (the tag survives as third component;
+            # every pass that looks at kinds treats the pair as mayRaise + mutate, the Lean emission fuses it)
+            return seq([('mayRaise',), ('mutate', f, 'call') if last[1] in TARGET_MEMBERS else ('mutate', f)])
         return ('mutate', f)
 
     def write_other(self, t, root, rk, ops, env):
@@ -1877,7 +1885,7 @@ class Translator:
             return [('mutate', fld)]
         if m in CHILD_MUTATORS:
             self.deps.add(m)
-            return [('mayRaise',), ('mutate', fld)]
+            return [('mayRaise',), ('mutate', fld, 'call') if m in TARGET_MEMBERS else ('mutate', fld)]
         raise Unsupported('%s:%d: unclassified method %s on field %s' % (env.file, e.lineno, m, fld))
 
     def parse_call(self, e, env):
@@ -2021,14 +2029,22 @@ def lean_term(s, fi, gi, ind=2):
         return '.' + k
     if k == 'mark':
         return '.mark %d' % s[1]
-    if k in ('assign', 'mutate', 'save', 'restore', 'saveC', 'restoreC'):
+    if k in ('assign', 'mutate', 'save', 'restore', 'saveC', 'restoreC', 'call'):
         return '.%s %d' % (k, fi[s[1]])
     if k == 'setFlag':
         return '.setFlag %d %s' % (gi[s[1]], 'true' if s[2] else 'false')
     if k == 'havoc':
         return '.havoc %d' % gi[s[1]]
     if k == 'seq':
-        items = [lean_term(x, fi, gi, ind + 2) for x in s[1]]
+        # `mayRaise` directly followed by the tagged in-place change of a child = one `call f`
+        fused, xs = [], list(s[1])
+        while xs:
+            x = xs.pop(0)
+            if x == ('mayRaise',) and xs and xs[0][0] == 'mutate' and len(xs[0]) == 3 and xs[0][2] == 'call':
+                fused.append(('call', xs.pop(0)[1]))
+            else:
+                fused.append(x)
+        items = [lean_term(x, fi, gi, ind + 2) for x in fused]
         return 'seqs [\n' + ',\n'.join(p + '  ' + it for it in items) + ']'
     if k in ('choice', 'tryCatch', 'tryFinally', 'loop'):
         return '.%s\n%s  (%s)\n%s  (%s)' % (k, p, lean_term(s[1], fi, gi, ind + 2), p, lean_term(s[2], fi, gi, ind + 2))
@@ -2040,6 +2056,26 @@ def lean_term(s, fi, gi, ind=2):
     raise ValueError(k)
 
 
+def count_calls(b):
+    """`call` statements of a numbered script as emitted to Lean: a tagged mutate directly after a mayRaise"""
+    k = b[0]
+    if k == 'seq':
+        n = 0
+        for i, x in enumerate(b[1]):
+            if x[0] == 'mutate' and len(x) == 3 and i and b[1][i - 1] == ['mayRaise']:
+                n += 1
+            else:
+                n += count_calls(x)
+        return n
+    if k in ('choice', 'tryCatch', 'tryFinally', 'loop'):
+        return count_calls(b[1]) + count_calls(b[2])
+    if k == 'scope':
+        return count_calls(b[1])
+    if k == 'ifFlag':
+        return count_calls(b[2]) + count_calls(b[3])
+    return 0
+
+
 def ident(name):
     return 's_' + ''.join(c if c.isalnum() else '_' for c in name)
 
@@ -2048,7 +2084,7 @@ def numbered(body, fi, gi):
     """the script with ids instead of names (plain lists: what the harness-side path search walks)"""
     k = body[0]
     if k in ('assign', 'mutate', 'save', 'restore', 'saveC', 'restoreC'):
-        return [k, fi[body[1]]]
+        return [k, fi[body[1]]] + list(body[2:])
     if k == 'setFlag':
         return [k, gi[body[1]], body[2]]
     if k == 'havoc':
@@ -2119,6 +2155,24 @@ def generate(repo):
             gl.append('  ⟨"%s", %s, %s_guarded⟩' % (r['name'], '[' + ', '.join(str(i) for i in obs) + ']', ident(r['name'])))
     lines.append(',\n'.join(gl))
     lines.append(']\n')
+    members = {}
+    for r in recs:
+        members.setdefault(r['member'], []).append(r['name'])
+    lines.append('/-- per script: the child mutators it calls (`call f` sites, recorded by member name because the class of the')
+    lines.append('child is not known statically) and, per name, the extracted scripts with that member name -/')
+    lines.append('def callDeps : List (String × List (String × List String)) := [')
+    lines.append(',\n'.join('  ("%s", [%s])' % (r['name'], ', '.join(
+        '("%s", [%s])' % (d, ', '.join('"%s"' % n for n in members.get(DEP_MEMBER.get(d, d), [])))
+        for d in r['deps'] if d in TARGET_MEMBERS)) for r in recs if any(d in TARGET_MEMBERS for d in r['deps'])))
+    lines.append(']\n')
+    lines.append('/-- per script: private helpers of a child object it calls that are no public mutators (no script of their')
+    lines.append('own): these sites stay `mayRaise; mutate f`, i.e. the contract is assumed, not derived -/')
+    lines.append('def helperDeps : List (String × List String) := [')
+    lines.append(',\n'.join('  ("%s", [%s])' % (r['name'], ', '.join('"%s"' % d for d in r['deps'] if d not in TARGET_MEMBERS))
+                             for r in recs if any(d not in TARGET_MEMBERS for d in r['deps'])))
+    lines.append(']\n')
+    lines.append('/-- number of `call` statements in the scripts above -/')
+    lines.append('def callSites : Nat := %d\n' % sum(count_calls(r['body']) for r in recs))
     lines.append('/-- mutators the translator could not extract (none expected) -/')
     lines.append('def notExtracted : List String := [%s]\n' % ', '.join('"%s.%s"' % (c, m) for c, m, _ in failed))
     lines.append('end CssVerif.Gen.C11\n')
